@@ -1,4 +1,5 @@
 import RemocModel.Table.Lemmas
+import RemocModel.Table.ConnSafe
 set_option linter.unusedSimpArgs false
 
 /-!
@@ -599,3 +600,92 @@ example : handleData (runEp { cfg := hCfg } hRun) 50 1 = .error .protocol := by 
 example : handleRx (runEp { cfg := hCfg } hRun) (.portData 50 true true false [] none) = .error .protocol := by rfl
 
 end Remoc.Table
+
+/-! ## The conforming-peer side: two endpoints of the system model (`Table/Conn.lean`) -/
+
+namespace Remoc.Table.Sys
+open Remoc.Wire Remoc.Table
+
+/-- **Between conforming endpoints no protocol error can fire** (all interleavings, any `max_ports`
+and `connect_queue` per side).  In every reachable state of the two-endpoint system the message at
+the head of either wire is handled by `handle_received_msg` without an error: no "too many OpenPort
+requests", no `OpenPort` for a port already outstanding, no answer for a port that is not
+connecting, no port message for a port that is not connected or whose flag is already set. -/
+theorem conforming_no_protocol_error (mpA cqA mpB cqB : Nat) (ls : List (Who × Lab)) (x : Who) (m : Msg)
+    (rest : List Msg) :
+    let s := run (init mpA cqA mpB cqB) ls
+    wireTo s x = m :: rest → ∃ e' em, handleRx (side s x).rxView m = .ok (e', em) := by
+  intro s hw
+  have hi := inv3_run _ ls (inv3_init mpA cqA mpB cqB)
+  cases x with
+  | A =>
+    simp only [wireTo] at hw
+    have h1 := hi.i2.r.ba; have h2 := hi.i2.r.ab; have h3 := hi.i2.pba; have h4 := hi.fba
+    have hc := hi.i2.r.wa m (by rw [hw]; simp)
+    rw [hw] at h1 h2 h3 h4
+    exact rx_ok s.b s.a m rest s.toB h1 h2 h3 h4 hc
+  | B =>
+    simp only [wireTo] at hw
+    have h1 := hi.i2.r.ab; have h2 := hi.i2.r.ba; have h3 := hi.i2.pab; have h4 := hi.fab
+    have hc := hi.i2.r.wb m (by rw [hw]; simp)
+    rw [hw] at h1 h2 h3 h4
+    exact rx_ok s.a s.b m rest s.toA h1 h2 h3 h4 hc
+
+/-- so the `deliver` label is enabled whenever a wire is not empty and the reader has not seen
+`Goodbye`: the model never gets stuck on a received message -/
+theorem deliver_enabled (mpA cqA mpB cqB : Nat) (ls : List (Who × Lab)) (x : Who) :
+    let s := run (init mpA cqA mpB cqB) ls
+    wireTo s x ≠ [] → (side s x).ep.goodbyeReceived = false → (step s x .deliver).isSome := by
+  intro s hne hg
+  cases hw : wireTo s x with
+  | nil => exact absurd hw hne
+  | cons m rest =>
+    obtain ⟨e', em, he⟩ := conforming_no_protocol_error mpA cqA mpB cqB ls x m rest hw
+    cases x with
+    | A =>
+      simp only [wireTo] at hw; simp only [side] at hg he
+      have he' : handleRx s.a.rxView m = .ok (e', em) := he
+      simp [step, stepSide, hw, hg, he']
+    | B =>
+      simp only [wireTo] at hw; simp only [side] at hg he
+      have he' : handleRx s.b.rxView m = .ok (e', em) := he
+      simp [step, stepSide, hw, hg, he']
+
+/-- non-vacuity: a state with an `OpenPort` at the head of the wire towards B while B's listener
+queue already holds a request (cq of B is 2) -/
+example :
+    let s := run (init 4 2 4 2) [(.A, .startConnect 1 true), (.A, .startConnect 2 false), (.A, .dispConn),
+      (.B, .deliver), (.A, .dispConn)]
+    s.toB = [.openPort 2 false (some 2)] ∧ s.b.ep.listenQ = [(1, true)] ∧ (step s .B .deliver).isSome := by
+  decide
+
+end Remoc.Table.Sys
+
+namespace Remoc.Table.Sys
+open Remoc.Wire Remoc.Table
+
+/-- **No event that the API objects of a conforming application queue makes the dispatcher panic**
+(all interleavings): in every reachable state the head of `connect_rx` and the head of `channel_rx`
+of either side are handled by `handle_event` (`handleEvt … = some …`): a connect request names an
+unused port, an accept/reject names an outstanding request and an unused port, a
+`SenderDropped` / `ReceiverClosed` / `ReceiverDropped` names a connected port whose flag is not set
+yet.  The events the dispatcher raises itself (`ListenerDropped`, `SendGoodbye`) are guarded by
+their flags in `stepSide`. -/
+theorem conforming_no_panic (mpA cqA mpB cqB : Nat) (ls : List (Who × Lab)) (x : Who) (ev : Evt) (rest : List Evt) :
+    let s := run (init mpA cqA mpB cqB) ls
+    ((side s x).connQ = ev :: rest ∨ (side s x).portQ = ev :: rest) → (handleEvt (side s x).ep ev).isSome = true := by
+  intro s hq
+  have hi := inv4_run _ ls (inv4_init mpA cqA mpB cqB)
+  cases x with
+  | A =>
+    obtain ⟨h1, h2⟩ := evt_ok s.b s.a s.toA s.toB hi.i3.i2.r.ba hi.i3.i2.r.qa hi.i3.ca hi.aa hi.ha
+    rcases hq with hq | hq
+    · exact h1 ev rest hq
+    · exact h2 ev rest hq
+  | B =>
+    obtain ⟨h1, h2⟩ := evt_ok s.a s.b s.toB s.toA hi.i3.i2.r.ab hi.i3.i2.r.qb hi.i3.cb hi.ab hi.hb
+    rcases hq with hq | hq
+    · exact h1 ev rest hq
+    · exact h2 ev rest hq
+
+end Remoc.Table.Sys
